@@ -1,6 +1,7 @@
 package worlds
 
 import (
+	"bufio"
 	"bytes"
 	"fmt"
 	"io"
@@ -88,6 +89,10 @@ func (c14) Gen(r *sim.Rand, tier string, run uint64) *sim.Scenario {
 		sc.Cfg["sinkk"] = int64(r.Intn(40))
 	}
 	sc.Cfg["rc"] = int64(r.Intn(2))
+	if sc.Cfg["sink"] == 0 && r.Chance(1, 4) {
+		sc.Cfg["rc"] = 2 // the Logger is a *bufio.Writer (which also has AvailableBuffer, WriteString, ReadFrom)
+		sc.Cfg["bufsz"] = int64(sim.PickInt(r, 16, 64, 100, 256, 4096))
+	}
 	if kind == 0 && r.Chance(1, 8) {
 		// code running up to the last byte of an attached window, with nothing attached behind
 		// it (the unattached ranges stay unattached in this variant): a tracer that reads more
@@ -183,11 +188,31 @@ func (c14) Exec(sc *sim.Scenario, env *sim.Env) *sim.Violation {
 
 func sinkFor(env *sim.Env, sc *sim.Scenario) (io.Writer, *sim.SimSink, *sim.RCSink) {
 	ss := sim.NewSink(env, int(sc.C("sink"))&3, int(sc.C("sinkk")))
+	if sc.C("rc") == 2 && ss.Plan == sim.SinkOK {
+		sz := int(sc.C("bufsz"))
+		if sz < 16 {
+			sz = 16
+		}
+		bw := bufio.NewWriterSize(ss, sz)
+		return &bufLogger{Writer: bw, ss: ss}, ss, nil
+	}
 	if sc.C("rc") != 0 {
 		rc := &sim.RCSink{SimSink: ss}
 		return rc, ss, rc
 	}
 	return ss, ss, nil
+}
+
+// bufLogger is a *bufio.Writer used as the Logger; flushed by the harness after the run.
+type bufLogger struct {
+	*bufio.Writer
+	ss *sim.SimSink
+}
+
+func flushLogger(w io.Writer) {
+	if b, ok := w.(*bufLogger); ok {
+		_ = b.Flush()
+	}
 }
 
 func c14sys(sc *sim.Scenario, env *sim.Env) *sim.Violation {
@@ -217,6 +242,8 @@ func c14sys(sc *sim.Scenario, env *sim.Env) *sim.Violation {
 	smA.S.Logger = w
 	var retA bool
 	pA, pvA := sim.RecoverLib(func() { retA = smA.S.RunUntil(target, budget) })
+	flushLogger(w)
+	st.ProbeIf(sc.C("rc") == 2, "logger_is_bufio_writer")
 	regsA := cpuA{&smA.S.CPU}.Regs()
 	// world B: untraced
 	smB, err := NewSysMachine(env, 1, mkHole())
